@@ -9,7 +9,7 @@
 (*      predicate for two lattice boxes, exact point classification Inside/Outside/OnSurface;          *)
 (*   2. a reference reorientation RefOrient (propagate over shared edges, fix the sign by the volume); *)
 (*   3. the transformation actions in functional form (PermuteFaces, RenumberVertices, FlipFaces,      *)
-(*      RewindCyclic, DeleteFaces, DuplicateShifted, Interpenetrate) and the base meshes.              *)
+(*      RewindCyclic, DeleteFaces, DuplicateShifted, Interpenetrate, Stretch) and the base meshes.     *)
 (* Used by MC_Mesh (model checking of the ground truth itself) and by TV_Mesh (verdicts on logged      *)
 (* constructions of the real TriangularMesh class).                                                    *)
 EXTENDS Integers, Sequences, FiniteSets
@@ -261,6 +261,17 @@ Shifted(m, d) == [m EXCEPT !.v = [i \in 1..Len(m.v) |-> Add(m.v[i], d)]]
 DuplicateShifted(m, d) == Join(m, Shifted(m, d))
 Interpenetrate(m, part) == Join(m, part)
 
+\* --- anisotropic integer stretch diag(s): flat and slender bodies on the lattice.  A stretch with positive factors is an
+\* affine bijection: it preserves incidence, convexity and every intersection, and multiplies every orientation
+\* determinant by s[1]*s[2]*s[3] > 0.  Hence Open, Components, Consistent, SelfIntersecting, the sign of Vol6, Outward,
+\* RefOrient and PointClass of Stretch(m, s) are those of m (with the points stretched as well).  The determinants of a
+\* body stretched by 400 or 10^4 exceed TLC's 32-bit integers, so the ground truth of a stretched mesh is evaluated on the
+\* mesh with the stretch divided out exactly; MC_Mesh checks the invariance where the numbers fit (StretchInvariant).
+Stretch3(s, p) == <<s[1] * p[1], s[2] * p[2], s[3] * p[3]>>
+Stretch(m, s) == [m EXCEPT !.v = [i \in 1..Len(m.v) |-> Stretch3(s, m.v[i])]]
+Destretch(s, V) == [i \in 1..Len(V) |-> <<V[i][1] \div s[1], V[i][2] \div s[2], V[i][3] \div s[3]>>]
+StretchExact(s, V) == s[1] > 0 /\ s[2] > 0 /\ s[3] > 0 /\ \A i \in 1..Len(V) : Stretch3(s, Destretch(s, V)[i]) = V[i]
+
 \* ------------------------------------------------------------------ base meshes (faces outward)
 Tetra == [v |-> <<<<0, 0, 0>>, <<2, 0, 0>>, <<0, 2, 0>>, <<0, 0, 2>>>>,
           f |-> <<<<1, 3, 2>>, <<1, 2, 4>>, <<2, 3, 4>>, <<1, 4, 3>>>>]
@@ -276,16 +287,22 @@ Octa == [v |-> <<<<2, 0, 0>>, <<-2, 0, 0>>, <<0, 2, 0>>, <<0, -2, 0>>, <<0, 0, 2
          f |-> <<<<1, 3, 5>>, <<3, 2, 5>>, <<2, 4, 5>>, <<4, 1, 5>>, <<3, 1, 6>>, <<2, 3, 6>>, <<4, 2, 6>>, <<1, 4, 6>>>>]
 \* L-shaped prism: the union of the boxes [0,2]x[0,1]x[0,1] and [0,1]x[0,2]x[0,1] as ONE closed surface (non-convex)
 LPoly == <<<<0, 0>>, <<2, 0>>, <<2, 1>>, <<1, 1>>, <<1, 2>>, <<0, 2>>>>
-LShape ==
-  [v |-> [i \in 1..12 |-> IF i <= 6 THEN <<LPoly[i][1], LPoly[i][2], 0>> ELSE <<LPoly[i - 6][1], LPoly[i - 6][2], 1>>],
-   f |-> <<<<1, 3, 2>>, <<1, 4, 3>>, <<1, 5, 4>>, <<1, 6, 5>>,            \* bottom, normal -z
-           <<7, 8, 9>>, <<7, 9, 10>>, <<7, 10, 11>>, <<7, 11, 12>>>>      \* top, normal +z
-         \o [k \in 1..12 |-> LET i == (k + 1) \div 2  j == (i % 6) + 1     \* side walls
-                             IN IF k % 2 = 1 THEN <<i, j, j + 6>> ELSE <<i, j + 6, i + 6>>]]
+\* prism of height 1 over a counter-clockwise lattice polygon; the caps are fans from the first corner
+PolyPrism(poly) ==
+  LET q == Len(poly) IN
+  [v |-> [i \in 1..(2 * q) |-> IF i <= q THEN <<poly[i][1], poly[i][2], 0>> ELSE <<poly[i - q][1], poly[i - q][2], 1>>],
+   f |-> [k \in 1..(q - 2) |-> <<1, k + 2, k + 1>>]                            \* bottom, normal -z
+         \o [k \in 1..(q - 2) |-> <<q + 1, q + k + 1, q + k + 2>>]             \* top, normal +z
+         \o [k \in 1..(2 * q) |-> LET i == (k + 1) \div 2  j == (i % q) + 1    \* side walls
+                                  IN IF k % 2 = 1 THEN <<i, j, j + q>> ELSE <<i, j + q, i + q>>]]
+LShape == PolyPrism(LPoly)
+\* prism over a lattice hexagon: four of the six side walls are slanted (they do not lie on the bounding box)
+HexPoly == <<<<2, 0>>, <<1, 2>>, <<-1, 2>>, <<-2, 0>>, <<-1, -2>>, <<1, -2>>>>
+HexPrism == PolyPrism(HexPoly)
 LBoxes == <<<<<<0, 0, 0>>, <<2, 1, 1>>>>, <<<<0, 0, 0>>, <<1, 2, 1>>>>>>       \* the two boxes whose union the L-shape is
 BaseMesh(name) == CASE name = "tetra" -> Tetra [] name = "box" -> Box [] name = "prism" -> Prism
-                    [] name = "octa" -> Octa [] name = "lshape" -> LShape
-BaseNames == {"tetra", "box", "prism", "octa", "lshape"}
+                    [] name = "octa" -> Octa [] name = "lshape" -> LShape [] name = "hexprism" -> HexPrism
+BaseNames == {"tetra", "box", "prism", "octa", "lshape", "hexprism"}
 Convex(name) == name # "lshape"
 
 \* ------------------------------------------------------------------ observers of the field law
@@ -298,6 +315,7 @@ ObsIn(name) ==
     [] name = "prism" -> {<<2, 2, 2>>, <<1, 1, 1>>, <<5, 2, 3>>}
     [] name = "octa" -> {<<0, 0, 0>>, <<2, 2, 2>>, <<-2, 0, 1>>, <<0, 1, -6>>}
     [] name = "lshape" -> {<<2, 2, 2>>, <<6, 2, 2>>, <<2, 6, 2>>, <<5, 3, 1>>}
+    [] name = "hexprism" -> {<<0, 0, 2>>, <<3, 3, 1>>, <<-5, 1, 3>>, <<2, -6, 2>>}
     [] OTHER -> {}
 ObsOut(name) ==
   CASE name = "tetra" -> {<<4, 4, 4>>, <<3, 3, 3>>, <<-2, -2, -2>>, <<12, 0, 0>>, <<2, 2, -1>>, <<8, 8, 8>>, <<0, 0, -4>>, <<20, 12, -16>>}
@@ -305,6 +323,7 @@ ObsOut(name) ==
     [] name = "prism" -> {<<5, 5, 2>>, <<2, 2, -1>>, <<2, 2, 5>>, <<-1, 2, 2>>, <<12, 0, 0>>, <<0, 0, 8>>, <<-4, -4, -4>>, <<20, 12, 16>>}
     [] name = "octa" -> {<<3, 3, 3>>, <<0, 0, 12>>, <<5, 5, 0>>, <<-8, -8, -8>>, <<2, 2, 5>>, <<8, 8, 0>>, <<12, -10, 18>>}
     [] name = "lshape" -> {<<6, 6, 2>>, <<5, 5, 2>>, <<-1, 2, 2>>, <<2, 2, 5>>, <<9, 2, 2>>, <<12, 4, 0>>, <<-4, -4, -4>>, <<20, 12, 16>>}
+    [] name = "hexprism" -> {<<7, 5, 2>>, <<6, 5, 2>>, <<9, 0, 2>>, <<0, 0, 5>>, <<0, 0, -1>>, <<0, 9, 2>>, <<12, 0, 0>>, <<-20, 12, 16>>}
     [] OTHER -> {}
 ObsDen == 4
 =============================================================================
